@@ -472,3 +472,10 @@ brk_on("R14-5", "on-R14-5-sentinel-helper-returns-bare-copy", ["C08"],
     [("jpeg2000/mqc/mqc.go", "	return append(buf, 0xFF, 0xFF)", "	return buf"),
      ("jpeg2000/mqc/mqc.go", "	if mqc.dataLen != 0 {\n		first = uint32(mqc.data[0])\n	}", "	if mqc.dataLen >= 0 {\n		first = uint32(mqc.data[0])\n	}")],
     "SLICE-CONST", "init")
+
+# seeded change C08-1 made correct in two different ways: the unordered-difference witness must fall silent
+CATALOGUE.append(dict(name="on-C08-1-offsets-validated-monotonic-at-parse", kind="benign", props=["C08"], rule="", where="", patch="seeded/C08-1/patch.diff",
+    edits=[("rle/rle.go", "		dec.offsets[i] = int(offset)\n", "		if i > 0 && i < int(numSegments) && int(offset) < dec.offsets[i-1] {\n			return nil, fmt.Errorf(\"RLE segment %d starts before segment %d\", i, i-1)\n		}\n		dec.offsets[i] = int(offset)\n")]))
+CATALOGUE.append(dict(name="on-C08-1-negative-length-rejected-at-use", kind="benign", props=["C08"], rule="", where="", patch="seeded/C08-1/patch.diff",
+    edits=[("rle/rle.go", "	offset := d.getSegmentOffset(segment)\n	return d.data[offset : offset+d.getSegmentLength(segment)]", "	offset := d.getSegmentOffset(segment)\n	n := d.getSegmentLength(segment)\n	if n < 0 {\n		n = 0\n	}\n	return d.data[offset : offset+n]")]))
+seed("C08-1", "C08", "SLICE-ORDER")
